@@ -7,6 +7,8 @@ CONSTANTS
   Dev_PlaintextFallbackWhenTlsNotEnabled = FALSE
   Dev_ClientCertRequestedNotRequired = FALSE
   Dev_NoVersionFloor = FALSE
+  Dev_HttpSchemeCaseDowngrade = FALSE
+  Dev_VerifyClockFrozenAtStart = FALSE
 INVARIANT ImplWithinAbs
 INVARIANT Decided
 CHECK_DEADLOCK FALSE
